@@ -2,8 +2,8 @@
 import json, os, time
 import vlib, stages
 
-EVID = os.path.join(vlib.VERIF, "evidence")
-REPLAYS = os.path.join(vlib.VERIF, "replays")
+EVID = os.path.join(vlib.OUT, "evidence")
+REPLAYS = os.path.join(vlib.OUT, "replays")
 KNOWN = os.path.join(vlib.VERIF, "known_findings.json")
 
 Q = lambda tier: tier == "quick"
